@@ -575,12 +575,13 @@ theorem C16_def_obsfcst (sl : List (List Rat)) :
     sliceMeans (sl.map (List.map fin)) = sl.map fun v => toXR (Stats.mean v) := by
   simp [sliceMeans, List.map_map, Function.comp_def, mean_fin]
 
-/-- ObsFcst layout: the observation line first, then the lines of input 0, 1, … -/
+/-- ObsFcst layout: the observation line first, then the lines (and quantile bands) of input 0, 1, … -/
 theorem C16_obsfcst_layout (ax : Vec) (obs0 : List Vec) (ins : List (List Vec × List (String × List Vec))) :
     (obsfcstSeries ax obs0 ins).head? = some { ax := 0, kind := "line", label := "Observed", xs := ax, ys := sliceMeans obs0 } ∧
     (obsfcstSeries ax obs0 ins).tail = perInput (fun k i =>
       { ax := 0, kind := "line", label := inName k, xs := ax, ys := sliceMeans i.1 } ::
-        i.2.map fun q => { ax := 0, kind := "line", label := inName k ++ "_" ++ q.1, xs := ax, ys := sliceMeans q.2 }) ins :=
+        (i.2.map fun q => { ax := 0, kind := "line", label := inName k ++ "_" ++ q.1, xs := ax, ys := sliceMeans q.2 }) ++
+        obsfcstBands ax i.2) ins :=
   ⟨rfl, rfl⟩
 
 /-- thresholding of an observation for the four event types the probabilistic diagrams accept -/
@@ -1316,6 +1317,160 @@ theorem C16_def_taylor (T : Tr) (os fs : List Rat) (hne : os ≠ []) (hl : os.le
   simp
 
 
+/-! ### the shaded band (util.fill) -/
+
+/-- a point of an envelope is valid iff neither its abscissa nor its ordinate is missing -/
+def validPt (p : XR × XR) : Bool := !p.1.isNan && !p.2.isNan
+
+private theorem fillKeep_eq (x y : XR) : fillKeep x y = validPt (x, y) := by
+  simp [fillKeep, validPt, Bool.not_or]
+
+private theorem fillFwd_eq (xs ys : Vec) : fillFwd xs ys = (List.zip xs ys).filter validPt := by
+  induction xs generalizing ys with
+  | nil => simp [fillFwd]
+  | cons x xs ih =>
+    cases ys with
+    | nil => simp [fillFwd]
+    | cons y ys =>
+      simp only [fillFwd, List.zip_cons_cons, List.filter_cons, fillKeep_eq, ih]
+
+private theorem fillBwd_eq (xs ys : Vec) (acc : List (XR × XR)) :
+    fillBwd xs ys acc = ((List.zip xs ys).filter validPt).reverse ++ acc := by
+  induction xs generalizing ys acc with
+  | nil => simp [fillBwd]
+  | cons x xs ih =>
+    cases ys with
+    | nil => simp [fillBwd]
+    | cons y ys =>
+      simp only [fillBwd, List.zip_cons_cons, List.filter_cons, fillKeep_eq, ih]
+      cases validPt (x, y) <;> simp
+
+/-- util.fill, the vertices: exactly the valid (x, lower) points in order, followed by the valid (x, upper)
+points in reverse order — each envelope filtered on its OWN missing values.  All inputs. -/
+theorem C16_fill_vertices (xs lower upper : Vec) :
+    fillPolygon xs lower upper =
+      (List.zip xs lower).filter validPt ++ ((List.zip xs upper).filter validPt).reverse := by
+  simp [fillPolygon, fillFwd_eq, fillBwd_eq]
+
+/-- util.fill: no vertex of the polygon has a NaN coordinate.  All inputs. -/
+theorem C16_fill_no_nan (xs lower upper : Vec) :
+    ∀ v ∈ fillPolygon xs lower upper, v.1.isNan = false ∧ v.2.isNan = false := by
+  intro v hv
+  rw [C16_fill_vertices] at hv
+  have key : ∀ (l : List (XR × XR)), v ∈ l.filter validPt → v.1.isNan = false ∧ v.2.isNan = false := by
+    intro l h
+    have := (List.mem_filter.mp h).2
+    simpa [validPt] using this
+  rcases List.mem_append.mp hv with h | h
+  · exact key _ h
+  · exact key _ (List.mem_reverse.mp h)
+
+/-- util.fill: the number of vertices is the number of valid lower points plus the number of valid upper points -/
+theorem C16_fill_length (xs lower upper : Vec) :
+    (fillPolygon xs lower upper).length =
+      ((List.zip xs lower).filter validPt).length + ((List.zip xs upper).filter validPt).length := by
+  simp [C16_fill_vertices]
+
+private theorem filter_validPt_all (xs ys : Vec) (hx : ∀ x ∈ xs, x.isNan = false) (hy : ∀ y ∈ ys, y.isNan = false) :
+    (List.zip xs ys).filter validPt = List.zip xs ys := by
+  apply List.filter_eq_self.mpr
+  intro p hp
+  have h1 := hx p.1 (List.of_mem_zip hp).1
+  have h2 := hy p.2 (List.of_mem_zip hp).2
+  simp [validPt, h1, h2]
+
+/-- util.fill with nothing missing: all n lower points forward, all n upper points backward, 2·n vertices -/
+theorem C16_fill_complete (xs lower upper : Vec) (hl : lower.length = xs.length) (hu : upper.length = xs.length)
+    (hx : ∀ x ∈ xs, x.isNan = false) (hlo : ∀ y ∈ lower, y.isNan = false) (hup : ∀ y ∈ upper, y.isNan = false) :
+    fillPolygon xs lower upper = List.zip xs lower ++ (List.zip xs upper).reverse ∧
+    (fillPolygon xs lower upper).length = 2 * xs.length := by
+  have e : fillPolygon xs lower upper = List.zip xs lower ++ (List.zip xs upper).reverse := by
+    rw [C16_fill_vertices, filter_validPt_all xs lower hx hlo, filter_validPt_all xs upper hx hup]
+  refine ⟨e, ?_⟩
+  rw [e]
+  simp [List.length_zip, hl, hu]
+  omega
+
+private theorem mem_zip_of_getElem? (xs ys : Vec) (i : Nat) (x y : XR) (hx : xs[i]? = some x) (hy : ys[i]? = some y) :
+    (x, y) ∈ List.zip xs ys := by
+  induction xs generalizing ys i with
+  | nil => simp at hx
+  | cons a xs ih =>
+    cases ys with
+    | nil => simp at hy
+    | cons b ys =>
+      cases i with
+      | zero =>
+        simp only [List.getElem?_cons_zero, Option.some.injEq] at hx hy
+        simp [hx, hy]
+      | succ i =>
+        simp only [List.getElem?_cons_succ] at hx hy
+        simp only [List.zip_cons_cons, List.mem_cons]
+        exact Or.inr (ih ys i hx hy)
+
+/-- util.fill: a point that is missing in one envelope only still contributes its other vertex (whatever the
+other envelope holds at that abscissa — in particular when it is NaN there) -/
+theorem C16_fill_one_sided (xs lower upper : Vec) (i : Nat) (x l u : XR)
+    (hx : xs[i]? = some x) (hl : lower[i]? = some l) (hu : upper[i]? = some u) (hxn : x.isNan = false) :
+    (u.isNan = false → (x, u) ∈ fillPolygon xs lower upper) ∧
+    (l.isNan = false → (x, l) ∈ fillPolygon xs lower upper) := by
+  rw [C16_fill_vertices]
+  constructor
+  · intro h
+    apply List.mem_append_right
+    rw [List.mem_reverse, List.mem_filter]
+    exact ⟨mem_zip_of_getElem? xs upper i x u hx hu, by simp [validPt, hxn, h]⟩
+  · intro h
+    apply List.mem_append_left
+    rw [List.mem_filter]
+    exact ⟨mem_zip_of_getElem? xs lower i x l hx hl, by simp [validPt, hxn, h]⟩
+
+private theorem envelope_emb (xs ys : List (Option Rat)) :
+    (List.zip (xs.map toXR) (ys.map toXR)).filter validPt =
+      (Diagram.envelope xs ys).map fun p => (fin p.1, fin p.2) := by
+  induction xs generalizing ys with
+  | nil => simp [Diagram.envelope]
+  | cons a xs ih =>
+    cases ys with
+    | nil => simp [Diagram.envelope]
+    | cons b ys =>
+      have ih' := ih ys
+      simp only [Diagram.envelope, toXR] at ih' ⊢
+      simp only [List.map_cons, List.zip_cons_cons, List.filter_cons, List.filterMap_cons]
+      cases a <;> cases b <;> simp [Cont.toXR, validPt, ih']
+
+/-- util.fill draws the band of the Spec: the lower envelope forward, the upper envelope backward, each at
+exactly the points where it is defined (missing = NaN) -/
+theorem C16_def_fill (xs lower upper : List (Option Rat)) :
+    fillPolygon (xs.map toXR) (lower.map toXR) (upper.map toXR) =
+      (Diagram.band xs lower upper).map fun p => (fin p.1, fin p.2) := by
+  rw [C16_fill_vertices, envelope_emb, envelope_emb]
+  simp [Diagram.band, List.map_reverse]
+
+private theorem zip_fst_snd {α β : Type} (l : List (α × β)) : List.zip (l.map (·.1)) (l.map (·.2)) = l := by
+  induction l with
+  | nil => rfl
+  | cons a l ih => simp [ih]
+
+/-- ObsFcst's bands are util.fill polygons between the i-th and the i-th last quantile line -/
+theorem C16_obsfcst_bands (ax : Vec) (qs : List (String × List Vec)) (s : Series) (hs : s ∈ obsfcstBands ax qs) :
+    ∃ i, i < qs.length / 2 ∧ ∃ lo hi, (qs[i]?).map (·.2) = some lo ∧ (qs[qs.length - 1 - i]?).map (·.2) = some hi ∧
+      s.kind = "poly" ∧ (List.zip s.xs s.ys) = fillPolygon ax (sliceMeans lo) (sliceMeans hi) ∧
+      fillPolygon ax (sliceMeans lo) (sliceMeans hi) ≠ [] := by
+  simp only [obsfcstBands, List.mem_flatMap, List.mem_range] at hs
+  obtain ⟨i, hi, hs⟩ := hs
+  have h1 : i < qs.length := by omega
+  have h2 : qs.length - 1 - i < qs.length := by omega
+  refine ⟨i, hi, (qs[i]'h1).2, (qs[qs.length - 1 - i]'h2).2, by simp [h1], by simp [h2], ?_⟩
+  simp only [List.getElem?_eq_getElem h1, List.getElem?_eq_getElem h2, Option.map_some, Option.getD_some, fillSeries] at hs
+  split at hs
+  · simp at hs
+  · rename_i hne
+    simp only [List.mem_singleton] at hs
+    subst hs
+    refine ⟨rfl, ?_, by simpa using hne⟩
+    exact zip_fst_snd _
+
 /-! ## 5. Non-vacuity: the hypotheses are satisfiable on non-trivial instances -/
 
 def idTr : Tr := ⟨id, id, id, id⟩
@@ -1340,5 +1495,18 @@ example : Diagram.roc [1/2] [(true, 3/4), (false, 1/4), (true, 1/4)] = [some (1,
 
 example : (perInput (fun k (v : Vec) => [({ ax := 0, kind := "line", label := inName k, xs := v, ys := v } : Series)])
     [[fin 1], [fin 2], [fin 3]]).map (·.label) = ["in0", "in1", "in2"] := by decide +kernel
+
+/-- the band of three abscissae whose upper envelope is missing at the second and whose lower envelope is
+missing at the third: 2 lower + 2 upper vertices, none NaN, each envelope with its own points -/
+example : fillPolygon [fin 0, fin 6, fin 12] [fin 1, fin 2, nan] [fin 5, nan, fin 7] =
+    [(fin 0, fin 1), (fin 6, fin 2), (fin 12, fin 7), (fin 0, fin 5)] := by decide +kernel
+
+example : Diagram.band [some 0, some 6, some 12] [some 1, some 2, none] [some 5, none, some 7] =
+    [(0, 1), (6, 2), (12, 7), (0, 5)] := by decide +kernel
+
+example : fillPolygon [fin 0, nan] [fin 1, fin 2] [fin 5, fin 3] = [(fin 0, fin 1), (fin 0, fin 5)] ∧
+    fillPolygon [fin 0] [nan] [nan] = [] ∧
+    (fillPolygon [fin 0, fin 1] [fin 1, fin 2] [fin 5, pinf]).length = 4 := by
+  refine ⟨by decide +kernel, by decide +kernel, by decide +kernel⟩
 
 end VerifModel.C16
